@@ -26,13 +26,16 @@ META = dict(
     engine="E1-enum", level="exploration",
     technique="exhaustive enumeration of command lines (inputs x sub-command x binding mode x invocation x output "
               "target x locale) run as real subprocesses, bytes compared with in-process emit_c_code()",
-    text="Every combination of cdef texts (3 quick / 8 thorough, one with non-ASCII comments), preludes (4 / 6: empty, "
-         "ASCII, non-ASCII incl. a non-BMP character, no trailing newline with %/backslash), module names (2 / 4), 5 ways "
-         "of naming the FFI (read-sources; exec-python binding an FFI or a callable, under the default name or under "
-         "--ffi-var with a decoy bound to the default name), both invocations (console entry point, python -m "
-         "cffi.gen_src) and both output targets (file, '-') is executed as a subprocess; exit status must be 0 and the "
-         "bytes written must equal what FFI.emit_c_code() writes for the same inputs.  Part of the space is repeated "
-         "under an ASCII locale (LC_ALL=C, no coercion, no UTF-8 mode).",
+    text="Every combination of 6 (quick: 3) cdef texts (one with non-ASCII comments), 4 preludes (empty, ASCII, non-ASCII incl. a "
+         "non-BMP character, no trailing newline with %/backslash), 2 module names, 5 ways of naming the FFI "
+         "(read-sources; exec-python binding an FFI or a callable, under the default name or under --ffi-var with a "
+         "decoy bound to the default name), both invocations (console entry point, python -m cffi.gen_src) and both "
+         "output targets (file, '-') is executed; exit status must be 0 and the bytes written must equal what "
+         "FFI.emit_c_code() writes for the same inputs.  Thorough: 640 of the 960 command lines (4 of the 6 cdef texts) are "
+         "real subprocesses and all 960 also run in-process.  "
+         "Quick: 40 command lines are real subprocesses and the full product over 3 cdef texts (480) is run inside forked "
+         "workers with argv/stdout/cwd substituted, the two routes being cross-checked.  40 more subprocesses run under an ASCII locale (LC_ALL=C, "
+         "no coercion, no UTF-8 mode).",
     note="reference bytes come from FFI.emit_c_code(path) in the check process (UTF-8 locale, cross-checked against "
          "emit_c_code(StringIO) encoded as UTF-8); input files are UTF-8 with LF line ends, no BOM")
 
@@ -54,7 +57,6 @@ PRELUDES = [
     ("nonascii", "/* préambule — 前文 \U0001f600 */\nstatic int helper(int x) { return x + 1; }\n"),
     ("nonl_pct", "static const char *s = \"a\\tb%d%%s\\\\\";\t/* 100% {0} no newline at end */"),
 ]
-QUICK_CDEFS = ("func", "struct", "nonascii")
 NAMES = ["m", "pkg.m"]
 NAMES_THOROUGH = ["m", "pkg.m", "a.b.c_d9", "_x"]
 CDEFS_THOROUGH_EXTRA = [
@@ -220,9 +222,59 @@ def last_exception(stderr):
     return None
 
 
+class InProcessResult(object):
+    def __init__(self, returncode, stdout, stderr):
+        self.returncode, self.stdout, self.stderr = returncode, stdout, stderr
+
+
+def call_in_process(inv, cmd, cwd):
+    """The same command line without a new interpreter: sys.argv, sys.stdout/stderr and the cwd are set as
+    the child would see them (stdout = UTF-8 text layer over a byte buffer, as in the inherited environment)
+    and the entry point is reached the way the launcher / `python -m` reaches it.  Used only for the
+    inherited environment; the subprocess route is the authority and the two are cross-checked."""
+    import importlib
+    import runpy
+    import traceback
+    saved = (sys.argv, sys.stdout, sys.stderr, os.getcwd(), sys.path[:])
+    obuf, ebuf = io.BytesIO(), io.BytesIO()
+    wout = werr = None
+    rc = 0
+    try:
+        wout = sys.stdout = io.TextIOWrapper(obuf, encoding="utf-8", errors="strict", write_through=True)
+        werr = sys.stderr = io.TextIOWrapper(ebuf, encoding="utf-8", errors="backslashreplace", write_through=True)
+        os.chdir(cwd)
+        try:
+            if inv == "module":
+                sys.argv = [os.path.join(build.REPO, "src", "cffi", "gen_src.py")] + cmd[3:]
+                runpy.run_module("cffi.gen_src", run_name="__main__", alter_sys=True)
+            else:
+                sys.argv = [cmd[0]] + cmd[1:]
+                mod = importlib.import_module(_G["ep"][0])
+                func = mod
+                for part in _G["ep"][1].split("."):
+                    func = getattr(func, part)
+                sys.exit(func())
+        except SystemExit as e:
+            rc = 0 if e.code is None else e.code if isinstance(e.code, int) else 1
+        except BaseException:
+            traceback.print_exc()
+            rc = 1
+    finally:
+        sys.argv, sys.stdout, sys.stderr = saved[0], saved[1], saved[2]
+        for w in (wout, werr):
+            try:
+                w.flush()
+                w.detach()          # keep the byte buffer open when the text layer goes away
+            except Exception:
+                pass
+        os.chdir(saved[3])
+        sys.path[:] = saved[4]
+    return InProcessResult(rc, obuf.getvalue(), ebuf.getvalue())
+
+
 def run_case(case, keep=False):
-    """Execute one command line.  Returns (case, verdict dict)."""
-    ci, pi, name, mode, inv, out, envname = case
+    """Execute one command line.  Returns the verdict dict."""
+    route, ci, pi, name, mode, inv, out, envname = case
     cdef = _G["cdefs"][ci][1]
     prelude = _G["preludes"][pi][1]
     ref = _G["ref"][(ci, pi, name)]
@@ -255,11 +307,14 @@ def run_case(case, keep=False):
             cmd = [build.PY, "-m", "cffi.gen_src"] + args
         cwd = os.path.join(d, "cwd")
         os.makedirs(cwd)
-        try:
-            p = subprocess.run(cmd, stdin=subprocess.DEVNULL, stdout=subprocess.PIPE, stderr=subprocess.PIPE,
-                               env=_G["env"][envname], cwd=cwd, timeout=300)
-        except subprocess.TimeoutExpired:
-            raise InfraError("cffi-gen-src did not finish within 300 s: %r" % (cmd,))
+        if route == "in-process":
+            p = call_in_process(inv, cmd, cwd)
+        else:
+            try:
+                p = subprocess.run(cmd, stdin=subprocess.DEVNULL, stdout=subprocess.PIPE, stderr=subprocess.PIPE,
+                                   env=_G["env"][envname], cwd=cwd, timeout=600)
+            except subprocess.TimeoutExpired:
+                raise InfraError("cffi-gen-src did not finish within 600 s: %r" % (cmd,))
         if out == "file":
             try:
                 with open(outpath, "rb") as f:
@@ -332,42 +387,97 @@ def setup(cdefs, preludes, names, workbase):
 
 
 def enumerate_cases(ctx, cdefs, preludes, names):
+    """in-process route: the full product (inherited environment only).
+    subprocess route: quick = the sub-product {func} x {nonascii, nonl_pct} x {pkg.m}; thorough = the
+    full product; both tiers add {func} x {include, nonascii} x {m} under the ASCII locale."""
     cases = []
-    for ci, pi, name, mode, inv, out in itertools.product(range(len(cdefs)), range(len(preludes)), names,
-                                                          MODES, INVOCATIONS, OUTS):
-        cases.append((ci, pi, name, mode, inv, out, "inherit"))
+    allc, allp = range(len(cdefs)), range(len(preludes))
+    for ci, pi, name, mode, inv, out in itertools.product(allc, allp, names, MODES, INVOCATIONS, OUTS):
+        cases.append(("in-process", ci, pi, name, mode, inv, out, "inherit"))
+    cidx = {c[0]: i for i, c in enumerate(cdefs)}
+    pidx = {c[0]: i for i, c in enumerate(preludes)}
     if ctx.quick:
-        sub_c = [i for i, c in enumerate(cdefs) if c[0] in ("func", "nonascii")]
-        sub_p = [i for i, c in enumerate(preludes) if c[0] in ("include", "nonascii")]
-        sub_n = names[:1]
+        sub_c = [cidx["func"]]
+        sub_p = [pidx["nonascii"], pidx["nonl_pct"]]
+        sub_n = names[1:2]
     else:
-        sub_c, sub_p, sub_n = range(len(cdefs)), range(len(preludes)), names[:1]
+        sub_c = [cidx[k] for k in ("func", "struct", "nonascii", "nonl_tabs") if k in cidx]
+        sub_p, sub_n = allp, names
     for ci, pi, name, mode, inv, out in itertools.product(sub_c, sub_p, sub_n, MODES, INVOCATIONS, OUTS):
-        cases.append((ci, pi, name, mode, inv, out, "ascii-locale"))
+        cases.append(("subprocess", ci, pi, name, mode, inv, out, "inherit"))
+    for ci, pi, name, mode, inv, out in itertools.product([cidx["func"]], [pidx["include"], pidx["nonascii"]],
+                                                          names[:1], MODES, INVOCATIONS, OUTS):
+        cases.append(("subprocess", ci, pi, name, mode, inv, out, "ascii-locale"))
     return cases
 
 
 def sig_of(case, v, cdefs, preludes):
-    ci, pi, name, mode, inv, out, envname = case
+    route, ci, pi, name, mode, inv, out, envname = case
     nonascii = not (is_ascii(cdefs[ci][1]) and is_ascii(preludes[pi][1]))
     return {"kind": "+".join(v["kinds"]), "diff": v.get("diff"), "exception": v.get("exception"), "out": out,
-            "env": envname,
+            "env": envname, "route": route,
             "nonascii_input": nonascii, "mode": "read-sources" if mode == "read" else "exec-python"}
 
 
+def agree(v1, v2):
+    return (v1["ok"], v1["kinds"], v1.get("diff")) == (v2["ok"], v2["kinds"], v2.get("diff"))
+
+
 def run(ctx):
-    cdefs = [c for c in CDEFS if c[0] in QUICK_CDEFS] if ctx.quick else CDEFS + CDEFS_THOROUGH_EXTRA
-    preludes = PRELUDES + ([] if ctx.quick else PRELUDES_THOROUGH_EXTRA)
-    names = NAMES if ctx.quick else NAMES_THOROUGH
+    cdefs, preludes, names = CDEFS, PRELUDES, NAMES
+    if ctx.quick:
+        cdefs = [c for c in CDEFS if c[0] in ("func", "enum_cb", "nonascii")]
+    if ctx.opts.get("wide"):          # --opt wide=1: larger alphabets (about 3.5x)
+        cdefs = CDEFS + CDEFS_THOROUGH_EXTRA
+        preludes = PRELUDES + PRELUDES_THOROUGH_EXTRA
+        names = NAMES_THOROUGH
     workbase = build.scratch_shared()
     setup(cdefs, preludes, names, workbase)
     if _G["ep"] is None:
         ctx.violation({"kind": "entry-point-missing"}, {"what": "no [project.scripts] cffi-gen-src in pyproject.toml"})
         return ctx.finish({"evaluations": 0, "distinct_nontrivial": 0, "rule": "entry point missing", "exhaustive": False})
     cases = enumerate_cases(ctx, cdefs, preludes, names)
-    nontrivial = set()
+    nsub = sum(1 for c in cases if c[0] == "subprocess")
+    ctx.log("%d command lines (%d as subprocesses, %d in-process), %d reference outputs (%d distinct), entry point %s:%s" % (
+        len(cases), nsub, len(cases) - nsub, len(_G["ref"]), len(set(_G["ref"].values())), _G["ep"][0], _G["ep"][1]))
+    results = {}
+
+    def explore(route, per_block, nproc):
+        mine = [c for c in cases if c[0] == route]
+        nblk = max(nproc, len(mine) // per_block)
+        blocks = [mine[i::nblk] for i in range(nblk)]          # interleaved: every block mixes modes
+        for block, r in pool.pmap(work, [[b] for b in blocks], nproc=nproc):
+            if isinstance(r, (pool.WorkerError, pool.Crash)):
+                raise InfraError("worker failed (%s route): %r" % (route, r))
+            for case, v in r:
+                results[case] = v
+
+    # process creation does not scale with the number of workers on this machine: few workers for the subprocesses
+    explore("subprocess", 3, 6)
+    ctx.log("subprocess route done")
+    explore("in-process", 24, 8)
+    if len(results) != len(cases):
+        raise InfraError("lost cases: %d of %d" % (len(results), len(cases)))
+    # the in-process route is only believed if it agrees with the subprocess route wherever both ran
+    both = disagree = 0
     for case in cases:
-        ci, pi, name, mode, inv, out, envname = case
+        if case[0] == "subprocess" and case[7] == "inherit":
+            sib = ("in-process",) + case[1:]
+            if sib in results:
+                both += 1
+                if not agree(results[case], results[sib]):
+                    disagree += 1
+    trusted = disagree == 0
+    ctx.count("routes_compared", both)
+    ctx.count("routes_disagree", disagree)
+    if not trusted:
+        ctx.log("in-process route disagrees with the subprocess route on %d of %d common cases: its verdicts are "
+                "DISCARDED, only the subprocess cases are judged" % (disagree, both))
+    judged = [c for c in cases if c[0] == "subprocess" or trusted]
+    nontrivial = set()
+    for case in judged:
+        route, ci, pi, name, mode, inv, out, envname = case
+        ctx.count("route_" + route)
         ctx.count("mode_" + mode)
         ctx.count("invocation_" + inv)
         ctx.count("out_" + out)
@@ -379,43 +489,37 @@ def run(ctx):
             ctx.count("prelude_empty")
         if na or out == "stdout" or mode not in ("read", "exec-direct") or envname != "inherit":
             nontrivial.add(case)
-        ctx.sample({"cdef": cdefs[ci][1], "prelude": preludes[pi][1], "name": name, "mode": mode,
+        ctx.sample({"route": route, "cdef": cdefs[ci][1], "prelude": preludes[pi][1], "name": name, "mode": mode,
                     "invocation": inv, "out": out, "env": envname})
-    ctx.log("%d command lines, %d reference outputs (%d distinct), entry point %s:%s" % (
-        len(cases), len(_G["ref"]), len(set(_G["ref"].values())), _G["ep"][0], _G["ep"][1]))
-    # interleave so that every block mixes modes; ~6 cases per block
-    nblk = max(16, len(cases) // 6)
-    blocks = [cases[i::nblk] for i in range(nblk)]
-    results = {}
-    for block, r in pool.pmap(work, [[b] for b in blocks]):
-        if isinstance(r, (pool.WorkerError, pool.Crash)):
-            raise InfraError("worker failed: %r" % (r,))
-        for case, v in r:
-            results[case] = v
-    if len(results) != len(cases):
-        raise InfraError("lost cases: %d of %d" % (len(results), len(cases)))
-    for case in cases:
+    for case in sorted(judged, key=lambda c: (c[0] != "subprocess", cases.index(c))):
         v = results[case]
-        ctx.count("outcome_" + ("exit0_bytes_equal" if v["ok"] else "+".join(v["kinds"]) + ":" + str(v.get("diff"))))
+        ctx.count("outcome_%s_%s" % (case[0], "exit0_bytes_equal" if v["ok"] else "+".join(v["kinds"]) + ":" + str(v.get("diff"))))
         if not v["ok"]:
-            ci, pi, name, mode, inv, out, envname = case
+            route, ci, pi, name, mode, inv, out, envname = case
             ctx.violation(sig_of(case, v, cdefs, preludes),
-                          {"cdef": cdefs[ci][1], "prelude": preludes[pi][1], "name": name, "mode": mode,
+                          {"route": route, "cdef": cdefs[ci][1], "prelude": preludes[pi][1], "name": name, "mode": mode,
                            "invocation": inv, "out": out, "env": envname, "observed": v})
+    sub_rule = ("the sub-product {func} x {nonascii, nonl_pct} x {pkg.m}" if ctx.quick else
+                "the full product over the cdef texts {func, struct, nonascii, nonl_tabs}")
     cov = {
-        "evaluations": len(cases),
+        "evaluations": len(judged),
         "distinct_nontrivial": len(nontrivial),
-        "rule": "full product %d cdef texts x %d preludes x %d module names x 5 binding modes (read-sources; exec-python "
+        "rule": "command lines = %d cdef texts x %d preludes x %d module names x 5 binding modes (read-sources; exec-python "
                 "with an FFI / a callable under the default name; the same under --ffi-var with a decoy FFI bound to the "
-                "default name) x {console entry point, python -m cffi.gen_src} x {file, '-'} in the inherited (UTF-8) "
-                "environment, plus %s under LC_ALL=C PYTHONCOERCECLOCALE=0 PYTHONUTF8=0; each is one subprocess; "
-                "non-trivial = not the shape the unit tests cover, i.e. non-ASCII text, or output '-', or --ffi-var / "
-                "callable binding, or the ASCII locale (distinct command lines counted)" % (
-                    len(cdefs), len(preludes), len(names),
-                    "the sub-product {func, nonascii} x {include, nonascii} x {m}" if ctx.quick else "the same product with the first module name only"),
+                "default name) x {console entry point, python -m cffi.gen_src} x {file, '-'}.  Route 'subprocess' (the "
+                "authority): %s, one new interpreter each, inherited (UTF-8) environment, plus {func} x {include, nonascii} x "
+                "{m} under LC_ALL=C PYTHONCOERCECLOCALE=0 PYTHONUTF8=0.  Route 'in-process': the full product, the same "
+                "command line run inside a forked worker with sys.argv / sys.stdout / cwd substituted (entry point called "
+                "as the launcher does, or runpy for -m); believed only if it agrees with the subprocess route on every "
+                "common case (%d compared, %d disagreements).  non-trivial = not the shape the unit tests cover: non-ASCII "
+                "text, or output '-', or --ffi-var / callable binding, or the ASCII locale (distinct cases counted)" % (
+                    len(cdefs), len(preludes), len(names), sub_rule, both, disagree),
         "exhaustive": True,
         "bound": {"cdefs": [c[0] for c in cdefs], "preludes": [c[0] for c in preludes], "names": names,
                   "modes": MODES, "invocations": INVOCATIONS, "outputs": OUTS, "envs": ENVS},
+        "subprocess_runs": nsub,
+        "in_process_runs": len(cases) - nsub,
+        "in_process_route_trusted": trusted,
         "reference_outputs": len(_G["ref"]),
         "distinct_reference_outputs": len(set(_G["ref"].values())),
         "entry_point": "%s:%s" % _G["ep"],
@@ -425,17 +529,21 @@ def run(ctx):
         "emit_c_code(StringIO).encode('utf-8') (asserted)",
         "the console script is the launcher pip generates for the [project.scripts] entry of the tree under test",
         "input files are UTF-8, LF line ends, no BOM (how CR/BOM map to text is not stated and not judged)",
-        "the statement does not mention the locale, so the expected bytes are the same under every locale"])
+        "the statement does not mention the locale, so the expected bytes are the same under every locale",
+        "in-process route: stdout is a UTF-8 text layer over a byte buffer; writes that bypass sys.stdout would be missed "
+        "there, which is why it is cross-checked against real subprocesses on the common sub-product"])
 
 
 def replay(detail):
     cdefs = [("x", detail["cdef"])]
     preludes = [("x", detail["prelude"])]
     setup(cdefs, preludes, [detail["name"]], build.scratch_shared())
-    case = (0, 0, detail["name"], detail["mode"], detail["invocation"], detail["out"], detail["env"])
+    route = detail.get("route", "subprocess")
+    case = (route, 0, 0, detail["name"], detail["mode"], detail["invocation"], detail["out"], detail["env"])
     v = run_case(case, keep=True)
     ref = _G["ref"][(0, 0, detail["name"])]
-    print("command :", " ".join(v.get("cmd") or ["(see detail)"]))
+    print("route   :", route)
+    print("command :", " ".join(v.get("cmd") or ["(conforming run)"]))
     print("env     :", detail["env"], ASCII_ENV if detail["env"] == "ascii-locale" else "")
     print("exit    :", v["rc"])
     print("verdict :", "OK" if v["ok"] else "+".join(v["kinds"]), "/", v.get("diff"))
